@@ -441,6 +441,100 @@ func runC19(c *core.Ctx) core.Meta {
 		}
 	}
 
+	// ---------------- R19.8 the one-page gate is reopened by every acknowledgement ----------------
+	st8 := c.Rule("R19.8", "the driver sends one page-migration request to a command processor at a time: the function that sends it closes a gate (a boolean field of the driver set after the successful Send and tested before it), and the handler of the command processor's acknowledgement (the driver function that takes a *PageMigrationRspToDriver) reopens the gate on every path to its return, helpers expanded. If the last acknowledgement of a request leaves the gate closed, the next migration request re-homes its page in the page table, queues the copy and never sends it: the page is mapped to a frame its contents were never copied to and no completion is reported", 2)
+	{
+		pdrv := NewPkgInfo(c, driverPkg)
+		// the gate: a bool field of Driver stored true in a function that also Sends on gpuPort and tests the same field
+		var gate string
+		var sender *ssa.Function
+		for _, fn := range pdrv.Funcs {
+			tested := map[string]bool{}
+			sends := false
+			for _, b := range fn.Blocks {
+				for _, in := range b.Instrs {
+					if iff, ok := in.(*ssa.If); ok {
+						if f := core.LoadedField(iff.Cond); f != nil {
+							tested[core.ShortFieldID(f)] = true
+						}
+					}
+					if SendOn(in, "gpuPort") {
+						sends = true
+					}
+				}
+			}
+			if !sends {
+				continue
+			}
+			for _, b := range fn.Blocks {
+				for _, in := range b.Instrs {
+					if st, ok := in.(*ssa.Store); ok {
+						if f := core.FieldOfAddr(st.Addr); f != nil && tested[core.ShortFieldID(f)] {
+							if bv, isC := core.ConstBool(st.Val); isC && bv && strings.HasPrefix(core.ShortFieldID(f), "Driver.") {
+								gate, sender = core.ShortFieldID(f), fn
+							}
+						}
+					}
+				}
+			}
+		}
+		var handler *ssa.Function
+		for _, fn := range pdrv.Funcs {
+			for _, prm := range fn.Params {
+				if namedTypeName(prm.Type()) == "protocol.PageMigrationRspToDriver" {
+					handler = fn
+				}
+			}
+		}
+		if gate == "" || handler == nil {
+			c.Report(core.Finding{Rule: "R19.8", Kind: "anchor", Pkg: driverPkg, Func: "-", Detail: "gate/handler", Msg: "the one-page gate of the driver or the handler of PageMigrationRspToDriver was not found"})
+		} else {
+			c.MarkAnalysed(sender)
+			c.MarkAnalysed(handler)
+			st8.Instances++
+			// the sender closes the gate only after a successful Send
+			gs := core.BuildGraph(sender, 0, nil)
+			okClose := true
+			for _, n := range gs.Nodes {
+				if st, ok := storeToField(n.Instr, gate); ok {
+					if bv, isC := core.ConstBool(st.Val); isC && bv {
+						if !gs.Guarded(n, NilCut(func(v ssa.Value) bool {
+							in, ok := v.(ssa.Instruction)
+							return ok && SendOn(in, "gpuPort")
+						}, true)) {
+							okClose = false
+						}
+					}
+				}
+			}
+			st8.Ob(okClose)
+			if !okClose {
+				c.ReportAt("R19.8", sender, sender.Pos(), "gate:closed-without-send", gate+" is set on a path on which the request was not sent: the gate stays closed with nothing in flight to reopen it")
+			}
+			st8.Instances++
+			gh := core.BuildGraph(handler, 2, func(cal *ssa.Function) bool { return cal.Pkg == handler.Pkg })
+			reopen := func(n *core.Node) bool {
+				st, ok := storeToField(n.Instr, gate)
+				if !ok {
+					return false
+				}
+				bv, isC := core.ConstBool(st.Val)
+				return isC && !bv
+			}
+			var leak *core.Node
+			gh.Walk([]core.State{{N: gh.Entry}}, core.WalkOpts{Stop: reopen}, func(x core.State) {
+				if _, isRet := x.N.Instr.(*ssa.Return); isRet && x.N.Frame.Parent == nil && leak == nil {
+					leak = x.N
+				}
+			})
+			st8.Ob(leak == nil)
+			st8.Sample("gate %s: closed in %s after a successful Send, reopened on every path of %s: %v", gate, core.FuncName(sender), core.FuncName(handler), leak == nil)
+			if leak != nil {
+				c.ReportAt("R19.8", handler, leak.Instr.Pos(), "gate:not-reopened", core.FuncName(handler)+" can return without clearing "+gate+": after that acknowledgement "+core.FuncName(sender)+" refuses every further page-migration request, although the page table was already pointed at the new frame; the page's contents are never copied and the migration never completes")
+			}
+		}
+	}
+
 	// ---------------- R19.6 expected acknowledgements are counted where requests are queued ----------------
 	st6 := c.Rule("R19.6", "in the driver's migration handshake every increment of an acknowledgement counter (num…ACK) sits in the same basic block as the queueing of the request it stands for, and every page-migration request queued for a command processor has its increment in that block: the stage is left when the counter returns to zero, so a counter that counts per GPU while requests are queued per page reports completion (and restarts the GPUs) before the last page was copied, and underflows afterwards", 4)
 	{
